@@ -45,11 +45,18 @@ def er_facts(F, S):
         den = ret[2]
         ex = r["exec"]
         layers = []
-        d = den
-        while isinstance(d, tuple) and d[0] == "accum":
-            layers.append(d)
-            d = d[1]
-        good = d == cf(0.0) and len(layers) >= 1
+        good = True
+
+        def summands(x):
+            if isinstance(x, tuple) and x[0] == "+":
+                return summands(x[1]) + summands(x[2])
+            return [x]
+        for d in summands(den):  # one running sum, or partial sums over the two runs of the ring added up
+            n0 = len(layers)
+            while isinstance(d, tuple) and d[0] == "accum":
+                layers.append(d)
+                d = d[1]
+            good = good and d == cf(0.0) and len(layers) > n0
         post_b = r["heap"].get("self." + buf)
         for lay in layers:
             inc = lay[2]
